@@ -191,6 +191,15 @@ def badUnitWord (w : Bytes) : Bool :=
   (match w with | c :: _ => islower c | [] => false) && w.all isKwChar &&
     ((Gen.keywords.any fun kv => kv.1 == String.ofList (w.map fun b => Char.ofNat b.toNat)) || (unitMatches w).length != 1)
 
+/-- The options written behind `exec` (`stdin` / `body`) hold one twice: `si` / `bo` - the option was given already. -/
+def optsRepeatFrom (si bo : Bool) : List Kw → Bool
+  | [] => false
+  | .stdin :: r => si || optsRepeatFrom true bo r
+  | .body :: r => bo || optsRepeatFrom si true r
+  | _ :: _ => false
+
+def optsRepeat (opts : List Kw) : Bool := optsRepeatFrom false false opts
+
 /-- The text that may follow a defect: nothing, or a blank and anything. -/
 def tailOK (tl : Bytes) : Bool := match tl with | [] => true | c :: _ => c == 32
 
